@@ -50,9 +50,24 @@ Theorem C09_cleanup_complete : forall r o ph np, cleanup_ok np (session_trace r 
 Proof. exact cleanup_complete. Qed.
 Print Assumptions C09_cleanup_complete.
 
+(* The state in which Execute is ENTERED: with a context that is already cancelled / past its
+   deadline (phase BeforeEntry; covered by C09_cleanup_complete like every phase) the session is
+   admitted and torn down exactly like one cancelled before start: no process is run, every
+   subscription is released, CloseSession once, every process stopped once, the pending flag is
+   false again, Execute returns nil. *)
+Theorem C09_cancelled_before_entry : forall r np,
+  session_trace r Cancelled BeforeEntry np = session_trace r Cancelled BeforeStart np /\
+  runs r Cancelled BeforeEntry = false /\
+  session_ret r Cancelled BeforeEntry = RNil /\
+  cleanup_ok np (session_trace r Cancelled BeforeEntry np) = true.
+Proof. exact cancelled_before_entry. Qed.
+Print Assumptions C09_cancelled_before_entry.
+
 Theorem C09_cleanup_ok_sound : forall np l, cleanup_ok np l = true ->
   (forall m, count_ev (is_sub m) l = count_ev (is_unsub m) l) /\
-  count_ev is_close l = 1 /\
+  (count_ev is_close l = 1 \/
+   (count_ev is_close l = 0 /\ (forall m, count_ev (is_sub m) l = 0) /\
+    (forall p, p < np -> count_ev (is_run p) l = 0))) /\
   (forall p, p < np -> count_ev (is_stop p) l = 1 /\ count_ev (is_run p) l <= 1) /\
   last_pend l = Some false.
 Proof. exact cleanup_ok_sound. Qed.
@@ -276,7 +291,11 @@ Example C09_nonvacuous :
   steps_below 4 sched = true /\ all_decided 4 st = true /\
   map (pcs st) [0; 1; 2; 3] = [PRun; PRefused; PRun; PRefused] /\
   feasible Peer CoordinatorSilent = true /\
-  summary 2 (session_trace Peer CoordinatorSilent BeforeStart 2) = [1; 1; 1; 0; 1; 1; 1; 0; 1; 0; 0; 1; 1].
+  summary 2 (session_trace Peer CoordinatorSilent BeforeStart 2) = [1; 1; 1; 0; 1; 1; 1; 0; 1; 0; 0; 1; 1] /\
+  session_trace Coord Cancelled BeforeEntry 1 =
+    [EPend true; ESub MFail; ESub MReady; EUnsub MReady; EUnsub MFail; EClose; EPend false; EStop 0] /\
+  cleanup_ok 1 [EPend true] = false /\ cleanup_ok 1 [EStop 0; EPend false] = true /\
+  cleanup_ok 1 [ESub MFail; EUnsub MFail; EStop 0; EPend false] = false.
 Proof. vm_compute. repeat split. Qed.
 
 (* Non-vacuity of the contention rounds: eight requests for one id on the canonical complete
